@@ -860,10 +860,18 @@ func ruleY9(c *Ctx, rule string) {
 				}
 			})
 		}
-		if len(foreign) == 0 && len(sts) > 0 {
+		own := 0
+		for _, st := range sts {
+			dominatingConds(st.Block(), func(cond ssa.Value, taken bool, at *ssa.BasicBlock) {
+				if condReadsOnlyField(cond, fn.Params[0], f) {
+					own++
+				}
+			})
+		}
+		if len(foreign) == 0 && own > 0 {
 			r.Discharge(rule, key, c.P.pos(sts[0].Pos()), "skipped only under a test of the attribute itself")
 		} else {
-			r.Finding(rule, key, c.P.pos(sts[0].Pos()), fmt.Sprintf("yaml.Node.%s is not written on the path to the return at %s (the store depends on %s): nodes taking that path are printed without this attribute", f, avoidable, strings.Join(uniq(foreign), "; ")))
+			r.Finding(rule, key, c.P.pos(sts[0].Pos()), fmt.Sprintf("yaml.Node.%s is not written on the path to the return at %s (the store depends on %s): nodes taking that path are printed without this attribute", f, avoidable, orText(strings.Join(uniq(foreign), "; "), "a condition that is not a test of the attribute itself")))
 		}
 	}
 }
@@ -1085,4 +1093,236 @@ func copiedParam(copyCall *ssa.Call) *ssa.Parameter {
 		}
 	}
 	return nil
+}
+
+// ---- M12: under DontFollowAlias no alias edge is followed ------------------------------------------
+//
+// A merge works on a copy of its left operand; the copy's alias nodes still
+// point at the anchored nodes of the document. The merge's traversals carry
+// DontFollowAlias so that they never leave the copy — M1's "no store reaches an
+// operand" (engine E1) rests on it. The flag must therefore stop EVERY step from
+// an alias node to its target inside the traversal functions, not only the
+// merge-key look-up: a step `traverse(…, node.Alias, …)` that is taken whatever
+// the preferences say lets `x *n y` create y's new fields inside the anchored
+// map of the document.
+func ruleM12(c *Ctx, rule string) {
+	r := c.R
+	r.Rule(rule, "a traversal step from an alias node to its target is taken only when the preferences allow following aliases", 2)
+	isTravPrefs := func(t types.Type) bool { return namedTypeName(t) == "traversePreferences" }
+	family := map[*ssa.Function]bool{}
+	for _, fn := range c.moduleFuncs() {
+		for _, p := range fn.Params {
+			if isTravPrefs(p.Type()) {
+				family[fn] = true
+			}
+		}
+		eachInstr(fn, func(ins ssa.Instruction) {
+			if ta, ok := ins.(*ssa.TypeAssert); ok && isTravPrefs(ta.AssertedType) {
+				family[fn] = true
+			}
+		})
+	}
+	isDFA := func(v ssa.Value) bool {
+		switch x := v.(type) {
+		case *ssa.UnOp:
+			if fa, isFa := x.X.(*ssa.FieldAddr); isFa && x.Op == token.MUL && fieldName(fa) == "DontFollowAlias" {
+				return true
+			}
+		case *ssa.Field:
+			return fieldNameOfField(x) == "DontFollowAlias"
+		}
+		return false
+	}
+	flagDown := func(blk *ssa.BasicBlock) bool {
+		ok := false
+		dominatingConds(blk, func(cond ssa.Value, taken bool, at *ssa.BasicBlock) {
+			v := cond
+			if u, isU := v.(*ssa.UnOp); isU && u.Op == token.NOT {
+				v, taken = u.X, !taken
+			}
+			if isDFA(v) && !taken {
+				ok = true
+			}
+			// a boolean computed beforehand: `followMerges := !prefs.DontFollowAlias && wantedKey != "<<"`
+			if _, isPhi := v.(*ssa.Phi); isPhi && boolImpliesDown(v, taken, 0, isDFA) {
+				ok = true
+			}
+		})
+		return ok
+	}
+	isAliasLoad := func(x ssa.Value) bool {
+		u, ok := x.(*ssa.UnOp)
+		if !ok || u.Op != token.MUL {
+			return false
+		}
+		fa, ok := u.X.(*ssa.FieldAddr)
+		return ok && fieldName(fa) == "Alias" && isNodePtr(fa.X.Type())
+	}
+	var fns []*ssa.Function
+	for fn := range family {
+		fns = append(fns, fn)
+	}
+	sort.Slice(fns, func(i, j int) bool { return funcKey(fns[i]) < funcKey(fns[j]) })
+	n := 0
+	for _, fn := range fns {
+		seen := map[string]int{}
+		eachInstr(fn, func(ins ssa.Instruction) {
+			ci, ok := ins.(ssa.CallInstruction)
+			if !ok {
+				return
+			}
+			callee := ci.Common().StaticCallee()
+			if callee == nil || !family[callee] {
+				return
+			}
+			follows := false
+			for _, a := range ci.Common().Args {
+				if isAliasLoad(a) {
+					follows = true
+				}
+				if phi, isPhi := a.(*ssa.Phi); isPhi {
+					for _, e := range phi.Edges {
+						if isAliasLoad(e) {
+							follows = true
+						}
+					}
+				}
+			}
+			if !follows {
+				return
+			}
+			n++
+			key := fmt.Sprintf("%s/%s(.Alias)", funcKey(fn), callee.Name())
+			seen[key]++
+			if seen[key] > 1 {
+				key = fmt.Sprintf("%s#%d", key, seen[key])
+			}
+			pos := c.P.pos(ins.Pos())
+			switch {
+			case flagDown(ins.Block()):
+				r.Discharge(rule, key, pos, "the step is taken under a test of !DontFollowAlias")
+			case callersEstablish(fn, func(call *ssa.CallCommon, at *ssa.BasicBlock) bool {
+				return at.Parent() == fn || flagDown(at) // a call of the function by itself is inside what its outer callers guard
+			}):
+				r.Discharge(rule, key, pos, "every call of "+fn.Name()+" is made under a test of !DontFollowAlias")
+			default:
+				r.Finding(rule, key, pos, fmt.Sprintf("%s steps from an alias node to its target whatever the traverse preferences say: a merge (which works on a copy of its left operand and sets DontFollowAlias to stay inside it) follows the alias into the anchored node of the document and writes there", funcKey(fn)))
+			}
+		})
+	}
+	if n == 0 {
+		r.Fatal("anchor moved: no traversal function steps from an alias node to its target")
+	}
+}
+
+func orText(s, alt string) string {
+	if s == "" {
+		return alt
+	}
+	return s
+}
+
+// ---- A11: only an encoder that hands the node to the YAML marshaller keeps aliases -------------
+//
+// The printer explodes a document (resolves aliases and merge keys) before it
+// gives it to an encoder whose CanHandleAliases() is false. An encoder may
+// answer true only if its output format can express aliases — on this tree
+// that is the YAML encoder, which hands the node to the yaml library. Any
+// other encoder answering true receives `<<` keys and alias nodes it prints
+// literally.
+func ruleA11(c *Ctx, rule string) {
+	r := c.R
+	r.Rule(rule, "CanHandleAliases() is true only for an encoder that hands the node to the YAML library", 8)
+	n := 0
+	for _, fn := range c.moduleFuncs() {
+		if fn.Name() != "CanHandleAliases" || fn.Signature.Recv() == nil || fn.Blocks == nil {
+			continue
+		}
+		n++
+		tname := namedTypeName(fn.Signature.Recv().Type())
+		key := tname + ".CanHandleAliases"
+		verdict := ""
+		for _, b := range fn.Blocks {
+			if ret, ok := b.Instrs[len(b.Instrs)-1].(*ssa.Return); ok && len(ret.Results) == 1 {
+				k, isK := ret.Results[0].(*ssa.Const)
+				switch {
+				case !isK || k.Value == nil:
+					verdict = "computed"
+				case k.Value.String() == "true" && verdict != "computed":
+					verdict = "true"
+				case verdict == "":
+					verdict = "false"
+				}
+			}
+		}
+		switch verdict {
+		case "false":
+			r.Discharge(rule, key, c.P.pos(fn.Pos()), "answers false: the printer explodes the document first")
+		case "true":
+			// its Encode must reach the YAML library's encoder
+			// one of the encoder's own methods must hand the node to the YAML library
+			// (reachability would not do: every function reaches it through debug logging)
+			usesYaml := false
+			for _, f := range c.moduleFuncs() {
+				if f.Signature.Recv() == nil || namedTypeName(f.Signature.Recv().Type()) != tname {
+					continue
+				}
+				eachInstr(f, func(ins ssa.Instruction) {
+					if cc := callCommon(ins); cc != nil {
+						if nme := calleeName(cc); strings.Contains(nme, "yaml.v3") || strings.Contains(nme, "go-yaml") {
+							usesYaml = true
+						}
+					}
+				})
+			}
+			if usesYaml {
+				r.Discharge(rule, key, c.P.pos(fn.Pos()), "answers true and its Encode hands the node to the YAML library, which writes anchors, aliases and merge keys as such")
+			} else {
+				r.Finding(rule, key, c.P.pos(fn.Pos()), tname+" answers that it can handle aliases, so the printer no longer explodes documents for it, but its Encode never reaches the YAML library: merge keys are printed as literal `<<` members and alias nodes by name")
+			}
+		default:
+			r.Undecided(rule, key, c.P.pos(fn.Pos()), "CanHandleAliases does not return a constant: shape not recognised")
+		}
+	}
+	if n == 0 {
+		r.Fatal("anchor moved: no CanHandleAliases method in the module")
+	}
+}
+
+// ---- N11: a path step hands on every node the traversal returns ---------------------------------
+//
+// traversePathOperator concatenates, candidate by candidate, what traverse
+// returns. Dropping a returned node because of what it is (seen before, a
+// certain kind) changes the result list: `.servers[].name` over two aliases of
+// one anchor must yield the name twice.
+func ruleN11(c *Ctx, rule string) {
+	r := c.R
+	r.Rule(rule, "traversePathOperator hands on every node traverse returns", 1)
+	fn := c.libFunc("traversePathOperator")
+	if fn == nil {
+		r.Fatal("anchor missing: traversePathOperator")
+		return
+	}
+	whole, single := 0, 0
+	eachInstr(fn, func(ins ssa.Instruction) {
+		call, ok := ins.(*ssa.Call)
+		if !ok || call.Call.StaticCallee() == nil {
+			return
+		}
+		switch call.Call.StaticCallee().Name() {
+		case "PushBackList":
+			whole++
+		case "PushBack":
+			single++
+		}
+	})
+	switch {
+	case whole > 0 && single == 0:
+		r.Discharge(rule, "traversePathOperator/PushBackList", c.P.pos(fn.Pos()), "the list traverse returns is appended as a whole")
+	case single > 0:
+		ruleNoFilter(c, rule, "traversePathOperator", map[string]bool{"PushBack": true}, nil,
+			"a node the traversal returned is dropped because of what it is: a path step over several candidates (aliases of one anchor, maps merging the same anchor) yields fewer results than candidates")
+	default:
+		r.Undecided(rule, "traversePathOperator/append", c.P.pos(fn.Pos()), "traversePathOperator appends the traversal results neither as a list nor one by one: shape not recognised")
+	}
 }
